@@ -41,3 +41,32 @@ Fixpoint zipadd (a b : list Q) : list Q :=
   match a, b with x :: xs, y :: ys => (x + y) :: zipadd xs ys | _, _ => [] end.
 Definition c13_additive_case (whole part1 part2 : list Q) : nat :=
   code [ qlist_eqb whole (zipadd part1 part2); (length whole =? length part1)%nat && (length whole =? length part2)%nat ].
+
+(* ---------- amplitudes that are not numbers ---------- *)
+(* an amplitude can be nan (0/0: nothing counted in a bin) or +-inf (x/0).  The twin run must give the same
+   non-number in the same place: pattern lists (0 finite, 1 nan, 2 +inf, 3 -inf) ride along, the value lists
+   carry 0 in those places.  flag2 = "same places hold the same non-numbers". *)
+Definition c13_case_np (exact : bool) (pb pt : list nat) (base transformed : list Q) : nat :=
+  code [ if exact then qlist_eqb base transformed else list_eqb (fun a b => Qclose tol48 a b || Qeqb a b) base transformed;
+         (length base =? length transformed)%nat;
+         nlist_eqb pb pt && (length pb =? length base)%nat ].
+Definition c13_case_scaled_np (pb pt : list nat) (base transformed : list Q) : nat :=
+  let m := qabsmax base in
+  code [ list_eqb (fun a b => Qleb (Qabs (a - b)) ((1 # 1099511627776) * m)) base transformed;
+         (length base =? length transformed)%nat;
+         nlist_eqb pb pt && (length pb =? length base)%nat ].
+
+(* ---------- the stored form of a pair-count table (PatchedCounts.to_hdf / from_hdf) ---------- *)
+(* One row per patch pair: the counts in every redshift bin.  The file keeps the rows selected by [keep]; reading
+   starts from zeros and puts the kept rows back.  The selection of the code is "some bin is not zero"
+   ([any_nonzero], whatever the magnitude); [any_above eps] is a selection with an absolute threshold. *)
+Definition any_nonzero (row : list Q) : bool := existsb (fun x => negb (Qeqb x 0)) row.
+Definition any_above (eps : Q) (row : list Q) : bool := existsb (fun x => Qltb eps (Qabs x)) row.
+Definition store_row (keep : list Q -> bool) (row : list Q) : option (list Q) := if keep row then Some row else None.
+Definition restore_row (nb : nat) (o : option (list Q)) : list Q := match o with Some r => r | None => repeat 0 nb end.
+Definition roundtrip_row (keep : list Q -> bool) (row : list Q) : list Q := restore_row (length row) (store_row keep row).
+Definition roundtrip (keep : list Q -> bool) (T : list (list Q)) : list (list Q) := map (roundtrip_row keep) T.
+Definition scale_row (k : Q) (row : list Q) : list Q := map (Qmult k) row.
+(* what was read back from the file against the model of the stored form applied to what was in memory *)
+Definition c13_store_case (mem restored : list (list Q)) : nat :=
+  code [ qmat_eqb restored (roundtrip any_nonzero mem); (length mem =? length restored)%nat ].
